@@ -8,7 +8,6 @@ import (
 	"fmt"
 	"math"
 	"os"
-	"os/exec"
 	"path/filepath"
 	"strconv"
 	"strings"
@@ -16,7 +15,6 @@ import (
 	"github.com/cloudwego/thriftgo/parser"
 	"github.com/cloudwego/thriftgo/semantic"
 	"github.com/cloudwego/thriftgo/tool/trimmer/dump"
-	"github.com/cloudwego/thriftgo/tool/trimmer/trim"
 
 	"verifharness/internal/vl"
 )
@@ -1007,6 +1005,21 @@ func run(repo, dir string, seed uint64, tier, trimmer string) error {
 		r.readAnnsOp()
 	}
 	if trimmer != "" {
+		for i, p := range fixedProjs() {
+			if err := r.treeProject(trimmer, dir, 100000+i, p, "fixed"); err != nil {
+				return err
+			}
+		}
+		for i := 0; i < nTrim*2; i++ {
+			raw := i%3 == 0
+			tag := "random-dag"
+			if raw {
+				tag = "random-dag-raw"
+			}
+			if err := r.treeProject(trimmer, dir, 200000+i, r.g.genProj(raw), tag); err != nil {
+				return err
+			}
+		}
 		for i := 0; i < nTrim; i++ {
 			if err := r.trimmerProject(trimmer, dir, i); err != nil {
 				return err
@@ -1077,43 +1090,64 @@ func (r *runner) trimmerProject(trimmer, dir string, idx int) error {
 
 // trimmerCheck writes the project, runs the same pipeline in-process and the binary with -r, and compares.
 func (r *runner) trimmerCheck(trimmer, root string, files map[string]string, progs map[string]Prog) error {
+	return r.trimmerCheckProj(trimmer, root, files, progs, nil)
+}
+
+func (r *runner) trimmerCheckProj(trimmer, root string, files map[string]string, progs map[string]Prog, proj *Proj) error {
 	src := filepath.Join(root, "src")
 	outDir := filepath.Join(root, "out")
-	if err := os.MkdirAll(filepath.Join(src, "sub"), 0o755); err != nil {
+	r.out.Count("trimmer:projects")
+	tr, err := runTree(trimmer, root, files)
+	if err != nil {
 		return err
 	}
-	os.MkdirAll(outDir, 0o755)
-	for n, s := range files {
-		if err := os.WriteFile(filepath.Join(src, n), []byte(s), 0o644); err != nil {
-			return err
+	if tr.ast == nil {
+		r.out.Count("trimmer:project-rejected-by-" + tr.reject)
+		return nil
+	}
+	ast := tr.ast
+	if !tr.exit {
+		r.treeOp(tr)
+		if tr.rawEqual {
+			r.out.Count("tree:trimming-removed-nothing(raw)")
+		}
+		if len(tr.order) >= 4 {
+			r.out.Count("tree:reachable-files>=4")
 		}
 	}
-	r.out.Count("trimmer:projects")
-	mainPath := filepath.Join(src, "main.thrift")
-	// the same pipeline in-process, to know what each written file must contain
-	ast, err := parser.ParseFile(mainPath, nil, true)
-	if err != nil {
-		r.out.Count("trimmer:project-rejected-by-parser")
-		return nil
+	// tree-level failures: the set of written files, the written tree as a whole
+	for _, tf := range tr.fails {
+		r.out.Count("oracle-fail:tree/" + tf.class)
+		if r.out.Stats["tree-reported:"+tf.class] >= 3 {
+			continue
+		}
+		r.out.Count("tree-reported:" + tf.class)
+		in, key := files, "tree:"+tf.class+":"+vl.Hex(files["main.thrift"])
+		detail := tf.detail
+		if proj != nil {
+			mp := r.shrinkTree(trimmer, root+"-shrink", *proj, tf.class)
+			os.RemoveAll(root + "-shrink")
+			in, _ = mp.render()
+			key = "tree:" + tf.class + ":" + mp.graph()
+			if t2, e := runTree(trimmer, root, in); e == nil && t2.ast != nil {
+				for _, f2 := range t2.fails {
+					if f2.class == tf.class {
+						detail = f2.rel + ": " + f2.detail
+						break
+					}
+				}
+			}
+		} else {
+			detail = tf.rel + ": " + detail
+		}
+		r.out.Fail(vl.OracleFail{Key: key, What: "`trimmer -r` whole-tree dump: " + tf.class + " — " + detail, Input: in,
+			Expected: "every file reachable from main.thrift through includes is written exactly once, nothing else is, and the written tree parses again",
+			Observed: map[string]string{"class": tf.class, "detail": detail, "trimmer-output": clip(tr.log, 400)}})
 	}
-	if !accepted(ast) {
-		r.out.Count("trimmer:project-rejected-by-checker")
-		return nil
-	}
-	if _, err := trim.TrimAST(&trim.TrimASTArg{Ast: ast}); err != nil {
-		r.out.Count("trimmer:trim-error")
-		return nil
-	}
-	cmd := exec.Command(trimmer, "-r", src, "-o", outDir, mainPath)
-	cmd.Dir = root
-	log, err := cmd.CombinedOutput()
-	if _, isExit := err.(*exec.ExitError); err != nil && !isExit {
-		return fmt.Errorf("cannot run the trimmer binary: %v", err)
-	}
-	if err != nil {
-		r.out.Count("trimmer:binary-failed")
-		r.out.Fail(vl.OracleFail{Key: "trimmer-exit:" + firstLine(string(log)), What: "trimmer -r exits non-zero on an accepted project",
-			Input: files, Expected: "exit 0", Observed: string(log)})
+	if tr.exit || len(tr.fails) > 0 {
+		if tr.exit {
+			r.out.Count("trimmer:binary-failed")
+		}
 		return nil
 	}
 	r.out.Count("trimmer:runs")
@@ -1160,8 +1194,7 @@ func (r *runner) trimmerCheck(trimmer, root string, files map[string]string, pro
 		}
 		wb, err := os.ReadFile(filepath.Join(outDir, rel))
 		if err != nil {
-			fail(rel, "missing-file", err.Error(), "")
-			return
+			return // reported as a tree-level failure
 		}
 		r.out.Count("trimmer:files-reparsed")
 		names := map[string]bool{}
